@@ -21,7 +21,7 @@ import operator
 
 from sa.engine import peval
 from sa.engine.cfg import CFG
-from sa.engine.index import AnalysisError, last_attr, norm, own_nodes, parent
+from sa.engine.index import canonical_by_callee, AnalysisError, last_attr, norm, own_nodes, parent
 
 TR = "pynguin.instrumentation.tracer"
 TU = "pynguin.utils.type_utils"
@@ -88,6 +88,13 @@ def _positive_distance_is_positive(ctx, repo) -> bool:
     return True
 
 
+def _canon(repo, fn):
+    """The callback with its locals named after the parameters of _update_metrics they feed (distance_true /
+    distance_false / predicate): the rules below then do not depend on how the callback spells its locals."""
+    um = repo.func(TR, "ExecutionTracer._update_metrics")
+    return canonical_by_callee(fn, um, lambda c: norm(c.func) == "self._update_metrics")
+
+
 def check(ctx) -> None:
     repo = ctx.repo
     ctx.rule("C04.helper-op", "each distance helper returns 0.0 only in the true branch of the operator it is named for, applied to (val1, val2) in that order (or in a handler of the operator's own TypeError); every other return is non-zero", floor=8)
@@ -119,7 +126,7 @@ def check(ctx) -> None:
         ctx.check("C04.helper-op", fn, ok_all, f"{name}: {why or 'no zero return under its own operator'}: the distance is zero for an outcome the interpreter does not take", what=f"{name}: zero only under `val1 {_sym(op)} val2`")
 
     # ------------------------------------------------------------------ C04.complement
-    ecp = repo.func(TR, "ExecutionTracer.executed_compare_predicate")
+    ecp = _canon(repo, repo.func(TR, "ExecutionTracer.executed_compare_predicate"))
     ctx.analysed(ecp)
     mt = next((n for n in own_nodes(ecp) if isinstance(n, ast.Match)), None)
     if mt is None:
@@ -193,6 +200,7 @@ def check(ctx) -> None:
     um_params = [a.arg for a in um.args.args][1:]
     n_calls = 0
     for qn, fn in tmod.functions.items():
+        fn = _canon(repo, fn) if qn.startswith("ExecutionTracer.") and qn.count(".") == 1 and qn != "ExecutionTracer._update_metrics" else fn
         for c in own_nodes(fn):
             if isinstance(c, ast.Call) and norm(c.func) == "self._update_metrics":
                 n_calls += 1
@@ -215,7 +223,7 @@ def check(ctx) -> None:
 
     # ------------------------------------------------------------------ C04.one-zero
     for qn in ("ExecutionTracer.executed_bool_predicate", "ExecutionTracer.executed_exception_match"):
-        fn = repo.func(TR, qn)
+        fn = _canon(repo, repo.func(TR, qn))
         ctx.analysed(fn)
         cfg = CFG(fn)
         inits = {}
@@ -336,7 +344,7 @@ def check(ctx) -> None:
         raise AnalysisError(f"C04.numeric: {undecided} of {rows + undecided} partition rows could not be interpreted")
 
     # exception-match predicate over a small class partition
-    eem = repo.func(TR, "ExecutionTracer.executed_exception_match")
+    eem = _canon(repo, repo.func(TR, "ExecutionTracer.executed_exception_match"))
     eparams = [a.arg for a in eem.args.args]
     EXC_CASES = [(ValueError("x"), ValueError), (ValueError, ValueError), (KeyError("k"), LookupError), (KeyError("k"), (ValueError, KeyError)), (KeyError("k"), (ValueError, OSError)),
                  (ValueError("x"), (TypeError, (ValueError, OSError))), (OSError(), Exception), (KeyboardInterrupt(), Exception), (ZeroDivisionError(), ArithmeticError)]
@@ -363,7 +371,7 @@ def check(ctx) -> None:
         ctx.check("C04.numeric", eem, good, f"{desc}: true={dt} false={df} but the interpreter {'enters' if expected else 'skips'} the handler", what=f"{desc}: true={dt} false={df}", stmt=f"[partition] {desc}")
 
     # bool predicate over a partition of truth-tested values (incl. objects whose truth value and size disagree)
-    ebp = repo.func(TR, "ExecutionTracer.executed_bool_predicate")
+    ebp = _canon(repo, repo.func(TR, "ExecutionTracer.executed_bool_predicate"))
     bparams = [a.arg for a in ebp.args.args]
     BOOL_CASES = [("True", True), ("False", False), ("0", 0), ("7", 7), ("-3", -3), ("0.0", 0.0), ("2.5", 2.5), ("nan", NAN), ("10**400", BIG), ("''", ""), ("'ab'", "ab"), ("[]", []), ("[1, 2]", [1, 2]),
                   ("None", None), ("object()", object()), ("truthy object of size 0", _TruthyEmpty()), ("falsy object of size 3", _FalsyFull()), ("1+2j", 1 + 2j), ("0j", 0j)]
